@@ -541,6 +541,7 @@ func (md *Model) defaultMatch(path, name string, ft types.Type, srcN *node, belo
 	}
 	// fitting candidates: a fitting getter excludes fields
 	var fitG, fitF []*fit
+	var candG, candF []*cand
 	var either string
 	for i := range cs {
 		f := md.fits(&cs[i].n, ft)
@@ -553,13 +554,15 @@ func (md *Model) defaultMatch(path, name string, ft types.Type, srcN *node, belo
 		}
 		if cs[i].getter {
 			fitG = append(fitG, f)
+			candG = append(candG, &cs[i])
 		} else {
 			fitF = append(fitF, f)
+			candF = append(candF, &cs[i])
 		}
 	}
-	chosen := fitG
+	chosen, chosenC := fitG, candG
 	if len(chosen) == 0 {
-		chosen = fitF
+		chosen, chosenC = fitF, candF
 	}
 	if len(chosen) > 0 && len(cs) > 1 && structOf(ft) != nil && !isPtr(ft) {
 		// several name-equal candidates, one fits directly while another by-value struct candidate of a
@@ -578,9 +581,14 @@ func (md *Model) defaultMatch(path, name string, ft types.Type, srcN *node, belo
 			notes = append(notes, f.notes...)
 		}
 		if below {
-			// a notation addresses a member of this struct: the member-wise view is required; members
-			// without their own notation still take the value of the same member of the matched source.
-			md.descendWithSources(path, ft, srcs)
+			// a notation addresses a member of this struct: the member-wise view is required; the
+			// members without their own notation are matched against the members of the matched source
+			// by the ordinary rules (a slice member is copied element-wise, case twins compete, ...).
+			if len(chosenC) == 1 && structOf(chosenC[0].n.t) != nil && !isPtr(chosenC[0].n.t) {
+				md.structToStruct(path, ft, &chosenC[0].n, "")
+				return
+			}
+			md.markEitherBelow(path, ft, "several fitting candidates for a struct that has to be matched member-wise")
 			return
 		}
 		md.expandLeaves(path, ft, func(leaf, rest string, lt types.Type) *Expect {
@@ -654,42 +662,6 @@ func NormalizeRest(s string) string {
 		return m[1] + m[2]
 	}
 	return s
-}
-
-// descendWithSources handles a struct field that matched as a whole while notations address members.
-func (md *Model) descendWithSources(path string, ft types.Type, srcs []string) {
-	st := structOf(ft)
-	for i := 0; i < st.NumFields(); i++ {
-		f := st.Field(i)
-		if !md.accessible(f) {
-			continue
-		}
-		p := join(path, f.Name())
-		if md.skipped(p) {
-			md.expandLeaves(p, f.Type(), func(leaf, rest string, lt types.Type) *Expect {
-				return &Expect{Path: leaf, Class: "none", Reason: "skip", Governed: "skip", Type: lt}
-			})
-			continue
-		}
-		var named []explicitN
-		for _, e := range md.explicit {
-			if e.dst == p {
-				named = append(named, e)
-			}
-		}
-		if len(named) > 0 {
-			md.explicitField(p, f.Type(), named)
-			continue
-		}
-		sub := withRest(srcs, "."+f.Name())
-		if structOf(f.Type()) != nil && !isPtr(f.Type()) && md.hasNotationBelow(p, f.Type()) {
-			md.descendWithSources(p, f.Type(), sub)
-			continue
-		}
-		md.expandLeaves(p, f.Type(), func(leaf, rest string, lt types.Type) *Expect {
-			return &Expect{Path: leaf, Class: "assign", Sources: withRest(sub, rest), Governed: "default", Type: lt, Notes: []string{"member of a struct matched as a whole"}}
-		})
-	}
 }
 
 func (md *Model) String() string {
